@@ -31,7 +31,11 @@ def import_style(pid, body):
            "dot+seq": '\t. "github.com/goghcrow/go-co"\n\t"github.com/goghcrow/go-co/seq"\n',
            "default+seq-renamed": '\t"github.com/goghcrow/go-co"\n\tsq "github.com/goghcrow/go-co/seq"\n'}[style]
     extra = {"dot+seq": "var _ = seq.Normal[int]\n", "default+seq-renamed": "var _ = sq.Normal[int]\n"}.get(style, "")
-    return "package corp\n\nimport (\n" + imp + "\trt \"verifws/verifrt\"\n)\n\nvar _ = rt.Emit\nvar _ " + q + "Iter[int]\n" + extra + "\n" + body
+    more = ""
+    m = re.search(r"^// EXTRA-IMPORTS: (.*)$", body, flags=re.M)
+    if m:
+        more = "".join("\t\"%s\"\n" % x for x in m.group(1).split())
+    return "package corp\n\nimport (\n" + more + imp + "\trt \"verifws/verifrt\"\n)\n\nvar _ = rt.Emit\nvar _ " + q + "Iter[int]\n" + extra + "\n" + body
 
 
 class Corpus:
